@@ -205,6 +205,22 @@ check("C13",
       "TLA+ spec (Coancestry.tla) model-checked by TLC + TLC validation of recorded matrix entries of the real classes",
       "DESIGN.md C13")
 
+check("C04",
+      "TLC checks taxon-permutation equivariance, additivity over every marker split, consistency of the allele-class flags and "
+      "variance signs for all models with <=3 taxa, <=2 markers and effects in -2..2. For the additive and additive-dominance "
+      "models, gebv/gegv/predict on phased, unphased and raw inputs (which must agree), taxon permutations, marker splits, "
+      "TrueBreedingValue, score (R^2), var_A, var_G, var_a, bulmer (NaN exactly when the genic variance is 0) and the fourteen "
+      "favourable/deleterious/neutral allele count/frequency/availability/fixation/polymorphism functions are validated by TLC "
+      "in exact integers/rationals on small exhaustive-size and random larger inputs (up to 60 taxa x 12 markers, 1-2 traits, "
+      "1-2 fixed effects, monomorphic markers, zero effects); output rows must carry the input labels. rrBLUP fits: TLC decides "
+      "intercept = training mean, monomorphic markers have effect exactly 0 and verifies the integer coefficient matrices; the "
+      "penalised-criterion and normal-equation inequalities are evaluated in floating point.",
+      "Integer effects/intercepts (values on an integer lattice, residual 1e-6); bulmer and R^2 as rationals; rrBLUP's ridge is "
+      "the one implied by the solution (residual of the normal equations proportional to u with a non-negative factor) - TLC "
+      "has no reals, stated partial scope.",
+      "TLA+ spec (LinModel.tla) model-checked by TLC + TLC validation of recorded outputs of the real model classes",
+      "DESIGN.md C04")
+
 def build():
     checks = []
     for pid in sorted(CHECKS):
